@@ -567,8 +567,201 @@ fn reductions(cfg: &Cfg, rng: &mut Rng, rep: &mut Report, n: usize) {
     let _ = cfg;
 }
 
+// ---------------------------------------------------------------------------------------------
+// reductions over structured inputs
+
+/// One reduction result against a double-double reference with an absolute a-priori bound.
+fn red_check(rep: &mut Report, id: &str, regime: &str, form: &str, got: Result<f64, String>, reference: Dd, bound: f64, inputs: &dyn Fn() -> Value) {
+    match got {
+        Err(m) => {
+            rep.check(id, regime, false, || json!({"panic": m, "form": form, "inputs": inputs()}));
+        }
+        Ok(g) => {
+            let err = (Dd::new(g) - reference).f().abs();
+            if bound > 0.0 && err.is_finite() {
+                rep.note_max(&format!("worst_ratio.{}", id), err / bound);
+            }
+            rep.check(id, regime, err <= bound, || json!({"form": form, "observed": jnum(g), "reference": jnum(reference.f()), "abs_err": jnum(err), "bound": jnum(bound), "inputs": inputs()}));
+        }
+    }
+}
+
+/// log-sum-exp / log-mean-exp of `lx` (free functions and Vector methods) against the max-shifted
+/// definition evaluated with a double-double sum.
+fn logdomain_check(rep: &mut Report, regime: &str, lx: &[f64]) {
+    let n = lx.len();
+    let m = lx.iter().cloned().fold(f64::NEG_INFINITY, f64::max);
+    let mut s = Dd::ZERO;
+    for &t in lx {
+        s = s + Dd::new((t - m).exp());
+    }
+    let lse = m + s.f().ln();
+    let lme = m + (s.f() / n as f64).ln();
+    for (id, form, got, reference) in [
+        ("C04.logsumexp", "logsumexp(&[f64])", guard(|| logsumexp(lx)), lse),
+        ("C04.logsumexp", "Vector::logsumexp", guard(|| Vector::new(lx.to_vec()).logsumexp()), lse),
+        ("C04.logmeanexp", "logmeanexp(&[f64])", guard(|| logmeanexp(lx)), lme),
+        ("C04.logmeanexp", "Vector::logmeanexp", guard(|| Vector::new(lx.to_vec()).logmeanexp()), lme),
+    ] {
+        match got {
+            Err(msg) => {
+                rep.check(id, regime, false, || json!({"form": form, "panic": msg, "x": jf(lx)}));
+            }
+            Ok(g) => {
+                let bound = 4.0 * (n as f64 + 4.0) * f64::EPSILON * (1.0 + reference.abs());
+                let err = (g - reference).abs();
+                if err.is_finite() {
+                    rep.note_max(&format!("worst_ratio.{}", id), err / bound);
+                }
+                rep.check(id, regime, g.is_finite() && err <= bound, || json!({"form": form, "observed": jnum(g), "reference": jnum(reference), "bound": jnum(bound), "len": n, "max": jnum(m), "x": jf(&lx[..n.min(64)])}));
+            }
+        }
+    }
+}
+
+const SIGN_PATTERNS: [&str; 5] = ["nonpos-with-zeros", "nonneg-with-zeros", "single-nonzero", "negative-only", "mixed-with-zeros"];
+
+/// A vector of length n (n >= 1) following one sign pattern. Zeros are exact (+0 and -0 mixed);
+/// magnitudes of the non-zero entries come from one of three moderate scales, so that no square,
+/// partial sum or (for the "unit" scale) partial product leaves the normal range.
+fn sign_pattern_vec(rng: &mut Rng, n: usize, pattern: usize) -> (Vec<f64>, &'static str) {
+    let (mag, mname): (fn(&mut Rng) -> f64, &'static str) = match rng.usize(0, 2) {
+        0 => (|r| r.range(0.5, 2.0), "unit"),
+        1 => (|r| r.int(1, 1000) as f64, "integer"),
+        _ => (|r| r.range(1.0, 10.0) * 10f64.powi(r.int(-6, 6) as i32), "wide"),
+    };
+    let zero = |r: &mut Rng| if r.bool() { 0.0 } else { -0.0 };
+    let mut x: Vec<f64> = (0..n).map(|_| mag(rng)).collect();
+    // number of exact zeros: at least one, at most n-1 (patterns that contain zeros)
+    let nz = if n >= 2 { rng.usize(1, n - 1) } else { 0 };
+    let idx = rng.perm(n);
+    match pattern {
+        0 => {
+            x.iter_mut().for_each(|t| *t = -*t);
+            for &i in &idx[..nz] {
+                x[i] = zero(rng);
+            }
+        }
+        1 => {
+            for &i in &idx[..nz] {
+                x[i] = zero(rng);
+            }
+        }
+        2 => {
+            for &i in &idx[1..] {
+                x[i] = zero(rng);
+            }
+            if rng.bool() {
+                x[idx[0]] = -x[idx[0]];
+            }
+        }
+        3 => x.iter_mut().for_each(|t| *t = -*t),
+        _ => {
+            for t in x.iter_mut() {
+                if rng.bool() {
+                    *t = -*t;
+                }
+            }
+            for &i in &idx[..nz] {
+                x[i] = zero(rng);
+            }
+        }
+    }
+    (x, mname)
+}
+
+/// Every reduction on vectors that follow a sign pattern (one-sided data, exact zeros, a single
+/// non-zero entry): the definition does not depend on where the signs or the zeros sit.
+fn sign_pattern_reductions(rng: &mut Rng, rep: &mut Report, n: usize, pattern: usize) {
+    let (x, mname) = sign_pattern_vec(rng, n, pattern);
+    let ypat = rng.usize(0, SIGN_PATTERNS.len() - 1);
+    let (y, _) = sign_pattern_vec(rng, n, ypat);
+    let regime = format!("reduce:sign:{}:{}", SIGN_PATTERNS[pattern], len_class(n));
+    rep.case(&regime);
+    rep.distinct(Hasher::new().s("reduce-sign").fs(&x).finish(), n >= 2);
+    let tiny = f64::MIN_POSITIVE;
+    let inputs = || json!({"x": jf(&x), "y": jf(&y), "magnitudes": mname});
+    let v = Vector::new(x.clone());
+    let shape = shape_for(rng, n).unwrap();
+    let m = Matrix::new(x.clone(), shape.0 as i32, shape.1 as i32);
+    // sum
+    let sref = dd::sum(&x);
+    let sbound = gamma_n(n) * dd::sum_abs(&x).f() + tiny;
+    red_check(rep, "C04.sum", &regime, "sum(&[f64])", guard(|| sum(&x)), sref, sbound, &inputs);
+    red_check(rep, "C04.sum", &regime, "Vector::sum", guard(|| v.sum()), sref, sbound, &inputs);
+    red_check(rep, "C04.sum", &regime, "Matrix::sum", guard(|| m.sum()), sref, sbound, &inputs);
+    // dot (against another patterned vector, and against itself)
+    for (form, b) in [("dot(x,y)", &y), ("dot(x,x)", &x)] {
+        let dref = dd::dot(&x, b);
+        let dbound = gamma_n(n + 1) * dd::dot_abs(&x, b) * (1.0 + 1e-9) + tiny;
+        red_check(rep, "C04.dot", &regime, form, guard(|| dot(&x, b)), dref, dbound, &inputs);
+    }
+    // prod: relative bound while every partial product is a normal number (or the product is 0)
+    {
+        let mut p = Dd::ONE;
+        let mut in_range = true;
+        for &t in &x {
+            p = p * Dd::new(t);
+            let a = p.f().abs();
+            if !(a == 0.0 || (a > 1e-280 && a < 1e280)) {
+                in_range = false;
+            }
+        }
+        if in_range {
+            let pb = gamma_n(n) * p.f().abs() + tiny;
+            red_check(rep, "C04.prod", &regime, "prod(&[f64])", guard(|| prod(&x)), p, pb, &inputs);
+            red_check(rep, "C04.prod", &regime, "Vector::prod", guard(|| v.prod()), p, pb, &inputs);
+            red_check(rep, "C04.prod", &regime, "Matrix::prod", guard(|| m.prod()), p, pb, &inputs);
+        }
+    }
+    // norm
+    let n2 = dd::dot(&x, &x).sqrt();
+    let nb = (gamma_n(n + 1) * 0.5 + 2.0 * dd::U) * n2.f() * (1.0 + 1e-9) + tiny;
+    red_check(rep, "C04.norm", &regime, "norm(&[f64])", guard(|| norm(&x)), n2, nb, &inputs);
+    red_check(rep, "C04.norm", &regime, "Vector::norm", guard(|| v.norm()), n2, nb, &inputs);
+    red_check(rep, "C04.norm", &regime, "Matrix::norm", guard(|| m.norm()), n2, nb, &inputs);
+    // infinity norm
+    {
+        let (r, c) = shape;
+        let mut best = Dd::ZERO;
+        for i in 0..r {
+            best = best.max(dd::sum_abs(&x[i * c..(i + 1) * c]));
+        }
+        let ib = gamma_n(c) * best.f() + tiny;
+        red_check(rep, "C04.inf_norm", &regime, "inf_norm(&[f64], nrows)", guard(|| inf_norm(&x, r)), best, ib, &inputs);
+        red_check(rep, "C04.inf_norm", &regime, "Matrix::inf_norm", guard(|| m.inf_norm()), best, ib, &inputs);
+    }
+    // the same vector read as log-domain values (one-sided log-weights with an exact 0 maximum, ...)
+    logdomain_check(rep, &regime, &x);
+}
+
+const THRESHOLD_WINDOWS: [(&str, f64, f64); 2] = [("below-exp-overflow", 690.0, 709.78), ("above-exp-underflow", -745.0, -690.0)];
+const NEAR_KINDS: [&str; 3] = ["exact-ties", "near-ties", "spread"];
+
+/// Log-domain inputs whose maximum lies just inside the thresholds of `exp` (every single
+/// exp(x_i) is still finite / non-zero) with 1..=1000 entries at or next to the maximum: the sum of
+/// exponentials leaves the f64 range although no term does. The definition is finite.
+fn logdomain_threshold(rng: &mut Rng, rep: &mut Report, n: usize, window: usize, kind: usize) {
+    let (wname, lo, hi) = THRESHOLD_WINDOWS[window];
+    let m = rng.range(lo, hi);
+    let kmax = n.min(1000);
+    let k = if rng.chance(0.25) { kmax } else { (rng.log_range(1.0, kmax as f64 + 0.999).floor() as usize).clamp(1, kmax) };
+    let width = match kind {
+        0 => 0.0,
+        1 => *rng.choose(&[1e-12, 1e-6, 0.01]),
+        _ => *rng.choose(&[0.5, 2.0, 8.0]),
+    };
+    let tail = *rng.choose(&[1.0, 20.0, 100.0, 1500.0]);
+    let mut lx: Vec<f64> = (0..n).map(|i| if i == 0 { m } else if i < k { m - rng.f64() * width } else { m - rng.f64() * tail }).collect();
+    rng.shuffle(&mut lx);
+    let regime = format!("reduce:logdomain-threshold:{}:{}", wname, NEAR_KINDS[kind]);
+    rep.case(&regime);
+    rep.distinct(Hasher::new().s("reduce-threshold").fs(&lx).finish(), n >= 2);
+    logdomain_check(rep, &regime, &lx);
+}
+
 pub fn run(cfg: &Cfg, rep: &mut Report) {
-    rep.rule = "every operator impl (4 ops x {Vector,Matrix} x {owned,borrowed}^2 vec∘vec, scalar-left/right, compound assignment, Neg, matmat* fns), 29 maps, powi (8 exponents), powf (4) at every length 0..=40 (lite: 0..=17,24,33) and random lengths up to 1e4, elements pairwise distinct with ±0, ±inf, subnormals, NaN mixed in; reductions against double-double references. non-trivial = length >= 1; distinct by (container, family, impl, length)".into();
+    rep.rule = "every operator impl (4 ops x {Vector,Matrix} x {owned,borrowed}^2 vec∘vec, scalar-left/right, compound assignment, Neg, matmat* fns), 29 maps, powi (8 exponents), powf (4) at every length 0..=40 (lite: 0..=17,24,33) and random lengths up to 1e4, elements pairwise distinct with ±0, ±inf, subnormals, NaN mixed in; reductions against double-double references. non-trivial = length >= 1; distinct by (container, family, impl, length); reductions additionally on sign-pattern vectors (all <= 0 / all >= 0 with exact ±0, single non-zero, negatives only, mixed) at every length 1..=40 and random lengths, and on log-domain vectors whose maximum lies in (690, 709.78) or (-745, -690) with 1..=1000 entries tied with / next to the maximum".into();
     rep.assume("powi has no IEEE definition: the runtime-exponent f64::powi (compiler-rt repeated squaring) is taken as the scalar operation; x*x and x*x*x are bit-identical to it");
     rep.assume("prod is checked on well-scaled data (no overflow/underflow) with a relative gamma_n bound; reductions of the empty slice other than sum/prod/dot/norm are outside the quantifier");
     rep.assume("Matrix shape mismatches are checked for pairs that NumPy broadcasting (C12) does not make compatible");
@@ -612,6 +805,38 @@ pub fn run(cfg: &Cfg, rep: &mut Report) {
         let n = rng.usize(41, 10_000);
         reductions(cfg, rng, rep, n);
     });
+    // structured reductions (native layers only): sign patterns at every length, and log-domain
+    // inputs with the maximum just inside the exp thresholds and many near-maximal entries
+    if !cfg.miri() {
+        let slens: Vec<usize> = (1..=40).collect();
+        let np = SIGN_PATTERNS.len();
+        let sreps = cfg.pick(4, 40, 1).max(1);
+        par_cases(cfg, rep, 5, slens.len() * np * sreps, |i, rng, rep| {
+            sign_pattern_reductions(rng, rep, slens[(i / np) % slens.len()], i % np);
+        });
+        par_cases(cfg, rep, 6, cfg.pick(200, 3000, 20), |i, rng, rep| {
+            let n = if rng.chance(0.8) { rng.usize(41, 400) } else { rng.usize(401, 5000) };
+            sign_pattern_reductions(rng, rep, n, i % np);
+        });
+        let treps = cfg.pick(3, 30, 1).max(1);
+        par_cases(cfg, rep, 7, slens.len() * 6 * treps, |i, rng, rep| {
+            logdomain_threshold(rng, rep, slens[(i / 6) % slens.len()], i % 2, (i / 2) % 3);
+        });
+        par_cases(cfg, rep, 8, cfg.pick(600, 6000, 60), |i, rng, rep| {
+            let n = if rng.chance(0.8) { rng.usize(41, 1200) } else { rng.usize(1201, 10_000) };
+            logdomain_threshold(rng, rep, n, i % 2, (i / 2) % 3);
+        });
+        for p in SIGN_PATTERNS {
+            for cl in ["len<8", "len%8=0", "len%8!=0"] {
+                rep.require(&format!("reduce:sign:{}:{}", p, cl), 1);
+            }
+        }
+        for (w, _, _) in THRESHOLD_WINDOWS {
+            for k in NEAR_KINDS {
+                rep.require(&format!("reduce:logdomain-threshold:{}:{}", w, k), 1);
+            }
+        }
+    }
     for cont in ["Vector", "Matrix"] {
         for fam in ["vv", "scalar-left", "scalar-right", "assign", "assign-scalar", "neg", "map", "powi", "powf"] {
             for cl in ["len<8", "len%8=0", "len%8!=0"] {
